@@ -23,7 +23,7 @@ RULE = ("histories over one CovarianceMatrix object (2-4 WFS on <=3x3 masks, 1-3
         "execution order of the 6 tasks of a 3-WFS system. Non-trivial history = >=2 builds, a worker-count change and "
         "a non-identity schedule or a delayed real pool. Distinct = canonical JSON of the history.")
 ASSUMPTIONS = ["the fake Pool models multiprocessing.Pool's documented contract (ordered map/imap, completion-ordered imap_unordered/callbacks, pickled arguments and results); real OS interleavings are sampled, not enumerated",
-               "worker processes left behind by the library (it never closes its pools) are terminated by the harness after each build and counted; a leak is not part of this property"]
+               "real pools are owned by the harness so that it can shut them down deterministically; with the fake pool the build is required to close or terminate every pool it creates (no worker processes carried over between builds)"]
 
 
 def SC():
@@ -124,7 +124,12 @@ class Model:
         try:
             if regime == "fake":
                 sched = op.get("schedule") or {"style": "identity", "seed": 0}
-                sc.multiprocessing = types.SimpleNamespace(Pool=lambda processes=None, *a, **k: FakePool(processes, schedule=sched, log=log))
+                made = []
+
+                def fake_pool(processes=None, *a, **k):
+                    made.append(FakePool(processes, schedule=sched, log=log))
+                    return made[-1]
+                sc.multiprocessing = types.SimpleNamespace(Pool=fake_pool)
                 if sched.get("style") != "identity":
                     self.flags.add("nonidentity")
             elif regime == "real":
@@ -155,6 +160,11 @@ class Model:
                 self.leaked += 1
         self.builds += 1
         self.ctx.classes["build_" + regime] += 1
+        if regime == "fake":
+            # worker processes, their pipes and helper threads are state too: a finished build must not leave them behind
+            # for the next one (multiprocessing documents that a Pool must be closed or terminated by its owner)
+            self.ctx.require(all(pl.closed for pl in made), "build %d (threads=%r) returned with its worker pool still open: %d pool(s) neither closed nor terminated - worker processes and pipes are carried over to later builds" % (
+                self.builds, self.obj.threads, sum(1 for pl in made if not pl.closed)))
         self.ctx.require(got.shape == self.ref.shape and got.dtype == self.ref.dtype, "build %d (%s, threads=%r): shape/dtype %s %s" % (self.builds, regime, self.obj.threads, got.shape, got.dtype))
         if not np.array_equal(bits(got), bits(self.ref)):
             nd = int(np.sum(bits(got) != bits(self.ref)))
